@@ -130,4 +130,27 @@ theorem provision_alone_after_interrupted_renewal_mismatched :
   ⟨[⟨⟨1, 0⟩, none⟩, ⟨⟨2, 0⟩, some ⟨7, .crashAfter⟩⟩], ⟨3, 50⟩, ⟨⟨0, 0, 1 + rootLife, 0⟩, ⟨2, 0, 1, 3⟩⟩,
     by decide, by decide, by decide, by decide⟩
 
+/-! ### renewal at run time: the full recovery statement fails for the tree as it is -/
+
+/-- start-up 1 (lifetime 0) leaves a chain whose intermediate is due; start-up 2 (lifetime 100)
+    renews it in `Start`: the new key is written, the write of the new certificate REPORTS AN
+    ERROR AFTER TAKING EFFECT (operation 8) — the error is logged, the process keeps running with
+    the old pair in memory while storage holds the new pair; its maintenance pass at time 3
+    finds the in-memory certificate due, renews AGAIN and dies right after writing the key
+    (operation 3 of the pass) -/
+def runtimeWitness : List Step :=
+  [.start ⟨⟨1, 0⟩, none⟩, .start ⟨⟨2, 100⟩, some ⟨8, .failAfter⟩⟩, .tick 3 (some ⟨3, .crashAfter⟩)]
+
+/-- **recovery fails once renewals at run time are interruptible** (`⊬` of the full statement in
+    Props.lean): after `runtimeWitness` storage holds certificate 3 — valid until 102, not due —
+    next to key 4.  The next uninterrupted start-up SUCCEEDS, loads that pair, does not renew
+    (nothing is due), and holds an intermediate key that does not belong to its intermediate
+    certificate.  The second maintenance pass did not start synced. -/
+theorem recovery_with_runtime_renewal_full_fails :
+    ∃ (sts : List Step) (c : Cfg) (m : Mem), StepsMonotone 0 sts ∧ lastStepTime 0 sts ≤ c.now ∧
+      ((Event.mk c none).run codeOrder (runSteps codeOrder sts World.empty).disk).value? = some m ∧
+      ¬ m.Consistent ∧ ¬ SyncedAtTicks codeOrder sts World.empty :=
+  ⟨runtimeWitness, ⟨4, 100⟩, ⟨⟨0, 0, 1 + rootLife, 0⟩, ⟨3, 0, 102, 4⟩⟩,
+    by decide, by decide, by decide, by decide, by decide⟩
+
 end CaddyModel.C14
